@@ -48,6 +48,8 @@ def un (w : World) (cfg : Cfg) : Ty → Obj → Obj
   | .td c, .dict kvs =>
       -- BaseConverter has no TypedDict hook: the payload is handled as the dict it is, by run-time class
       if cfg.gen then .dict (unTD w cfg (w.fields c) kvs) else .dict (mkDict (unAnyKV w cfg kvs))
+  -- `_unstructure_union` (both converter classes): by run-time class
+  | .union _ _, x => unAny w cfg x
   | _, x => x
 termination_by t x => (sizeOf x, sizeOf t)
 /-- unstructure by run-time class -/
